@@ -508,9 +508,14 @@ func c22RunCase(r *verifkit.R, phase string, ci int, rng *verifkit.Rand, servers
 	}
 	if sc.Control == "ws" {
 		// over WebSocket the server has no peer IP for the control channel: the owner can only be
-		// identified by the address it announces, so only that class is judged
+		// identified by the address it announces, or (nothing announced) by being the first
+		// sender, which the relay pins. The pin-only class is run with the owner sending first.
 		sc.Declared = "owner"
+		if rng.Chance(2, 5) {
+			sc.Declared = "none"
+		}
 	}
+
 	if sc.Declared == "other" && *skipOther >= 3 {
 		sc.Declared = "owner"
 	}
@@ -533,6 +538,7 @@ func c22RunCase(r *verifkit.R, phase string, ci int, rng *verifkit.Rand, servers
 		}
 	}
 	v6peer := peerIP != nil && peerIP.To4() == nil
+	pinOnly := sc.Control == "ws" && sc.Declared == "none"
 	inconclusive := func(msg string) {
 		r.Inconclusive(fmt.Sprintf("%s:%d %s", phase, ci, msg))
 	}
@@ -693,13 +699,19 @@ func c22RunCase(r *verifkit.R, phase string, ci int, rng *verifkit.Rand, servers
 	if declaredIP != nil {
 		allowed[declaredIP.String()] = true
 	}
+	if pinOnly {
+		allowed[sc.OwnerIP] = true // established by the owner's first datagram, see the schedule
+	}
 	syncFrom := "O"
 	if sc.Declared == "other" {
 		syncFrom = "A"
 	}
 	class := "declared-" + sc.Declared
 	if sc.Control == "ws" {
-		class = "ws-declared-owner"
+		class = "ws-declared-" + sc.Declared
+	}
+	if pinOnly {
+		r.Add("pin_only_associations", 1)
 	}
 	if v6peer {
 		class = "v6peer-declared-" + sc.Declared
@@ -815,6 +827,25 @@ func c22RunCase(r *verifkit.R, phase string, ci int, rng *verifkit.Rand, servers
 		return true
 	}
 
+	// reply fault: the mesh side hands the association a reply that cannot be sent (larger than
+	// a UDP datagram can carry), so WriteToClient fails while the association stays open. The
+	// failure itself is not judged; what the association does afterwards is.
+	replyFault := func() {
+		err := st.assoc.WriteToClient(1, []byte{9, 9, 9, 9}, 99, make([]byte, 70000))
+		sc.Ops = append(sc.Ops, c22Op{Op: "reply-fault"})
+		switch {
+		case err == nil:
+			r.Add("oversized_replies_sent", 1)
+		case strings.Contains(err.Error(), "no client address"):
+			r.Add("reply_faults_without_client", 1)
+		default:
+			r.Add("reply_faults", 1)
+			if pinOnly {
+				r.Add("reply_faults_pin_only", 1)
+			}
+		}
+	}
+
 	// unrelated traffic on other control connections of the same server
 	ports := map[string]int{"O": port("O"), "A": port("A"), "B": port("B")}
 	var bg chan error
@@ -878,10 +909,13 @@ func c22RunCase(r *verifkit.R, phase string, ci int, rng *verifkit.Rand, servers
 
 	// schedule: the first sender is drawn uniformly so that every arrival order occurs
 	first := verifkit.Pick(rng, []string{"O", "A", "B"})
+	if pinOnly {
+		first = "O"
+	}
 	sc.FirstFrom = first
 	r.Add("first_sender_"+map[string]string{"O": "owner", "A": "stranger", "B": "stranger"}[first], 1)
 	sent := map[string]int{}
-	if rng.Chance(1, 5) {
+	if !pinOnly && rng.Chance(1, 5) {
 		// the very first thing the relay socket sees is a malformed datagram
 		seq++
 		socks[first].WriteToUDP([]byte{0, 0, 1, 1, 1, 2, 3, 4, 0, 53, 'x'}, relay)
@@ -893,7 +927,19 @@ func c22RunCase(r *verifkit.R, phase string, ci int, rng *verifkit.Rand, servers
 	}
 	nops := rng.Range(4, 40)
 	for i := 0; i < nops && synced; i++ {
-		switch k := rng.Intn(24); {
+		switch k := rng.Intn(26); {
+		case k >= 24:
+			// let the relay consume what was sent so far (so that the client is recorded), then
+			// make one reply fail; the history continues with whoever sends next
+			if doSync() {
+				replyFault()
+				if rng.Bool() {
+					from := verifkit.Pick(rng, []string{"A", "B"})
+					send(from, "data")
+					sent[from]++
+					sc.Ops = append(sc.Ops, c22Op{Op: "send", From: from, Seq: seq})
+				}
+			}
 		case k >= 20:
 			if !traffic() {
 				return
@@ -1071,6 +1117,9 @@ func TestVerif_C22(t *testing.T) {
 		}
 		c22RunCase(r, "peerfam", i, rng, []*c22Server{stub}, &skipOther, false, p)
 	})
+	r.Require("pin_only_associations", 20)
+	r.Require("reply_faults", 200)
+	r.Require("reply_faults_pin_only", 10)
 	r.Require("v6peer_associations", 100)
 	r.Require("v6peer_none", 30)
 	r.Require("v6peer_stranger_datagrams_dropped", 200)
